@@ -12,6 +12,8 @@ TEXT = {
          "Rocq proof over the encoder decision model with estimator oracles; whole-stream correspondence; frame-size oracle on emitted bytes"),
  "C08": ("Theorems C08_residual / C08_subframe / C08_frame / C08_precompute / C08_either_sink / C08_frame_whole_bytes: count_bits of residuals (any order, parameters, quotients - no bound), of all four subframe kinds and of frames equals the number of bits the serialisation produces; frame bytes = count/8 through the word sink, byte export and byte sink (uses the C11 refinement); precompute preserves count and bytes. Tied by the CNT stream (direct residuals with quotient sums around 2^32, headers with 31/36-bit numbers, both sink types) and by count_bits on every ENC stream.",
          "Rocq proof: length bookkeeping of serialisation op sequences + sink refinement; correspondence on constructed components"),
+ "C13": ("Theorems C13_rice_optimal / C13_table_merge_exact / C13_finest_order: for every residual, warm-up and maximum parameter, the order and parameters returned by the finder model minimise the exact coded size over every partition order of the search space and every admissible parameter vector whenever some candidate is below 2^28-1 bits, and the reported bit count is then exact; proved by induction over the bottom-up merge (tables are exactly min(cost, 2^28-1) and merge = table of the concatenation). Tied by the RICE stream (find + table operations) and a brute-force optimum computed independently on the implementation's answers.",
+         "Rocq proof: optimality of the bottom-up partition search by induction, saturation algebra; unit correspondence + brute-force oracle"),
 }
 NOTE = ("Trusted: Coq 8.16.1 kernel, extraction with ExtrOcamlBasic only, OCaml driver, Rust harness, tools/*.py, "
         "and the hand-written model of the named source files, which is tied to /repo by differential testing "
